@@ -16,6 +16,7 @@ import os
 
 from harness.core import Corr, Disagreement, Failure, TieBroken, coq_eval, VERIF
 from harness.translate.c14_routes import Translator, coq_guard, segs
+from harness.translate import c14_lists_plug as lists
 
 ID = 'C14'
 SRC = 'batch/batch/front_end/front_end.py'
@@ -91,6 +92,7 @@ def generate(ctx):
     ctx.write_generated('Gen.v', text)
     for n in tr.notes:
         ctx.notes.append(n)
+    lists.generate(ctx)          # coq/generated/C14/Lists.v: the WHERE-clause builders of the listing endpoints
 
 
 def _impl_run(ctx, depth=3):
@@ -174,6 +176,7 @@ def correspond(ctx):
                                         mv, {'let_through': iv, 'outcomes': outs}))
     n_cases = sum(len(r['cases']) for r in impl)
     nontriv = sum(1 for r in routes if (r['verb'], norm(r['path'])) not in PUBLIC) * len(CX)
+    lc = lists.correspond(ctx)
     return Corr(evaluations=n_dec + n_cases, distinct_nontrivial=nontriv,
                 rule=f'exhaustive: {len(routes)} routes x 16 callers x 4 contexts (non-trivial = route not in the public whitelist), each run '
                      f'for every request body variant and every explored database-answer sequence (depth 3): {n_cases} real handler runs; '
@@ -182,7 +185,7 @@ def correspond(ctx):
                          for r in routes if r['body'] != ('GTrue',)][:3],
                 disagreements=dis, histograms={'outcome': dict(sorted(hist.items())), 'n_routes': len(routes),
                                                'code_refuses_more_than_model': {'count': len(stricter), 'routes': sorted({f'{a} {b}' for a, b, *_ in stricter})}},
-                exhaustive=True, names=['route-set', 'decorator-semantics', 'route-decision (code lets through -> model allows)'])
+                exhaustive=True, names=['route-set', 'decorator-semantics', 'route-decision (code lets through -> model allows)']).merge(lc)
 
 
 def _failures(impl):
@@ -215,14 +218,19 @@ def oracle(ctx, budget):
     impl = _impl_run(ctx, 3 if budget <= 1 and not ctx.thorough else 5)
     fails, n = _failures(impl)
     refused = sum(1 for r in impl for c in r['cases'] if not policy(r['method'], r['path'], c['caller'], c['ctx'])[0])
-    return fails, {'evaluations': n, 'distinct_nontrivial': refused,
+    lfails, lstats = lists.oracle(ctx, budget)
+    fails = fails + lfails
+    return fails, {'evaluations': n + lstats['evaluations'], 'distinct_nontrivial': refused + lstats['distinct_nontrivial'],
                    'rule': 'oracle: real handler runs whose (route, caller, ctx) the policy refuses (non-trivial) must end in an access-check '
-                           'error without a database write',
+                           'error without a database write | ' + lstats['rule'],
+                   'list_status_histogram': lstats['status_histogram'],
                    'samples': [{'case': f.case, 'observed': f.observed} for f in fails[:2]]}
 
 
 def replay(ctx, doc):
     case = doc.get('case') or doc
+    if case.get('list'):
+        return lists.replay(ctx, doc)
     res = ctx.run_impl('c14_routes.py', {'mode': 'run', 'explore': True, 'depth': 5, 'routes': [[case['method'], case['path']]],
                                          'callers': [[case['caller'], case['ctx']]], 'lookalikes': 'username' in case}, timeout=300)['result']
     out = []
